@@ -89,12 +89,10 @@ class Sym:
 
     def local(self, l, depth=0, subst=None):
         fn = self.fn
-        if subst is not None and l in subst:
-            return subst[l]
         key = (l, id(subst) if subst else 0)
         if key in self._memo:
             return self._memo[key]
-        if depth > 24:
+        if depth > 120:
             return ("unknown",)
         d = fn.defs().get(l, [])
         full = [x for x in d if x[2] != "partial"]
@@ -102,7 +100,7 @@ class Sym:
             e = None
             pos = getattr(self, "_pos", None)
             exp = self.__dict__.setdefault("_expanding", set())
-            if self.ifconv and pos is not None and len(full) == len(d) and len(d) >= 2 and depth < 20 and (l, pos) not in exp and len(exp) < 40:
+            if self.ifconv and pos is not None and len(full) == len(d) and len(d) >= 2 and depth < 100 and (l, pos) not in exp and len(exp) < 80:
                 exp.add((l, pos))
                 try:
                     e = self._value_at(l, pos, depth, subst)
@@ -124,6 +122,8 @@ class Sym:
         saved = getattr(self, "_pos", None)
         try:
             if sd[2] == "arg":
+                if subst is not None and l in subst:
+                    return subst[l]
                 e = ("param", l, fn.local_name(l) or "")
             elif sd[2] == "assign":
                 self._pos = (sd[0], sd[1])
@@ -354,7 +354,7 @@ class Sym:
 
     def _value_at_entry(self, l, b, depth, subst, busy):
         fn = self.fn
-        if b in busy or len(busy) > 60 or depth > 22:
+        if b in busy or len(busy) > 60 or depth > 110:
             return None
         if b == 0:
             argd = [x for x in fn.defs().get(l, []) if x[2] == "arg"]
@@ -436,6 +436,163 @@ class Sym:
                 e = ("select", ("bin", "Eq", cond, ("const", v)), av, e)
             return e
         return None
+
+    def field_exit_value(self, field, self_local=1):
+        """value of `(*self).field` when the function returns, as a select-tree over the branch decisions of every acyclic
+        path (leaves: the expression last stored on the path, or the entry value of the field).  None when a path reads the
+        field after storing it (the flow-insensitive field read would be wrong) or the paths are too many."""
+        fn = self.fn
+
+        def is_field_place(p):
+            return (not isinstance(p, int)) and p[0] == self_local and len(p[1]) == 2 and p[1][0][0] == "*" and p[1][1][0] == "." and p[1][1][2] == field
+
+        stores = {}   # block -> list of (idx, rvalue)
+        reads = {}    # block -> list of idx where the field is read
+        for b in fn.blocks:
+            if b.cleanup:
+                continue
+            for i, st in enumerate(b.stmts):
+                if st[0] != "=":
+                    continue
+                if is_field_place(st[1]):
+                    stores.setdefault(b.idx, []).append((i, st[2]))
+                for o in ir.rvalue_operands(st[2]):
+                    pp = op_place(o)
+                    if pp is not None and is_field_place(pp):
+                        reads.setdefault(b.idx, []).append(i)
+                if st[2][0] in ("ref",) and is_field_place(st[2][2]) and st[2][1] == "mut":
+                    return None
+        exits = [b.idx for b in fn.blocks if b.term[0] == "return" and not b.cleanup]
+        paths = []
+        count = [0]
+
+        def dfs(b, seen, decisions, last, stored):
+            if count[0] > 600:
+                return False
+            # reads after a store on this path?
+            if stored:
+                for i in reads.get(b, []):
+                    return False
+            for (i, rv) in stores.get(b, []):
+                # a read in the same statement (x += y) reads the entry value only if nothing was stored before
+                last = (b, i, rv)
+                stored = True
+            t = fn.blocks[b].term
+            if t[0] == "return":
+                count[0] += 1
+                paths.append((tuple(decisions), last))
+                return True
+            for sx in fn.succs(b):
+                if sx in seen or fn.blocks[sx].cleanup:
+                    continue
+                dec = decisions
+                if t[0] == "switch":
+                    vals = [v for v, tgt in t[2] if tgt == sx]
+                    key = ("other",) if (sx == t[3] and not vals) else (("eq", vals[0]) if len(vals) == 1 else ("in", tuple(vals)))
+                    dec = decisions + [(b, key)]
+                if not dfs(sx, seen | {sx}, dec, last, stored):
+                    return False
+            return True
+        if not dfs(0, {0}, [], None, False):
+            return None
+        if not paths:
+            return None
+        entry = ("field", ("param", self_local, fn.local_name(self_local) or "self"), field)
+
+        def leaf(last):
+            if last is None:
+                return entry
+            b, i, rv = last
+            saved = getattr(self, "_pos", None)
+            self._pos = (b, i)
+            try:
+                return self._norm(self.rvalue(rv))
+            finally:
+                self._pos = saved
+
+        def build(ps, k):
+            lasts = set((p[1][0], p[1][1]) if p[1] else None for p in ps)
+            if len(lasts) == 1:
+                return leaf(ps[0][1])
+            if any(len(p[0]) <= k for p in ps):
+                return None
+            blk = ps[0][0][k][0]
+            if any(p[0][k][0] != blk for p in ps):
+                return None
+            t = fn.blocks[blk].term
+            groups = {}
+            for p in ps:
+                groups.setdefault(p[0][k][1], []).append(p)
+            saved = getattr(self, "_pos", None)
+            self._pos = (blk, "t")
+            cond = self.operand(t[1])
+            self._pos = saved
+            sub = {}
+            for key, g in groups.items():
+                v = build(g, k + 1)
+                if v is None:
+                    return None
+                sub[key] = v
+            if len(set(repr(v) for v in sub.values())) == 1:
+                return next(iter(sub.values()))
+            if t[4] == "bool" and len(t[2]) == 1 and t[2][0][0] == 0:
+                vt, vf = sub.get(("other",)), sub.get(("eq", 0))
+                if vt is None or vf is None:
+                    return None
+                return ("select", cond, vt, vf)
+            e = sub.get(("other",))
+            keys = [k2 for k2 in sub if k2[0] == "eq"]
+            if e is None:
+                if not keys:
+                    return None
+                e = sub[keys[-1]]
+                keys = keys[:-1]
+            for k2 in reversed(keys):
+                e = ("select", ("bin", "Eq", cond, ("const", k2[1])), sub[k2], e)
+            return e
+        return build(paths, 0)
+
+    def straightline_effects(self, self_local=1):
+        """for a function with a single normal path: the final value of every field of `*self` it stores, in terms of the
+        entry values of the fields and the parameters (sequential reads see earlier stores).  None if the path branches."""
+        fn = self.fn
+        order = []
+        cur = 0
+        seen = set()
+        while True:
+            if cur in seen:
+                return None
+            seen.add(cur)
+            order.append(cur)
+            t = fn.blocks[cur].term
+            if t[0] == "return":
+                break
+            nxt = [x for x in fn.succs(cur) if not fn.blocks[x].cleanup]
+            if len(nxt) != 1:
+                return None
+            cur = nxt[0]
+        state = {}
+
+        def subst(e):
+            if not isinstance(e, tuple):
+                return e
+            if e[0] == "field" and e[1][0] == "param" and e[1][1] == self_local and e[2] in state:
+                return state[e[2]]
+            return tuple(subst(x) if isinstance(x, tuple) and x and isinstance(x[0], str) else
+                         (tuple(subst(y) for y in x) if isinstance(x, tuple) else x) for x in e)
+        saved_if = self.ifconv
+        for b in order:
+            for i, st in enumerate(fn.blocks[b].stmts):
+                if st[0] != "=":
+                    continue
+                p = st[1]
+                if (not isinstance(p, int)) and p[0] == self_local and len(p[1]) == 2 and p[1][0][0] == "*" and p[1][1][0] == ".":
+                    self._pos = (b, i)
+                    self._memo = {}
+                    e = self._norm(self.rvalue(st[2]))
+                    state[p[1][1][2]] = subst(e)
+        self._pos = None
+        return state
 
     def _dom_chain(self, b):
         fn = self.fn
@@ -670,6 +827,7 @@ def inline_simple(prog, cf, args, depth):
         return None
     s = Sym(prog, cf, inline_depth=depth)
     subst = {i + 1: a for i, a in enumerate(args)}
+    s._pos = (cur, "t")
     e = s.local(0, 0, subst)
     if contains(e, lambda x: x[0] in ("var", "unknown")):
         return None
